@@ -67,39 +67,8 @@ fn mk_conn(script: Arc<dyn Fn(&Value) -> Vec<u8> + Send + Sync>) -> (Arc<RwLock<
     (Arc::new(RwLock::new(c)), peer)
 }
 
-fn frame(v: &Value) -> Vec<u8> {
-    let mut b = serde_json::to_vec(v).unwrap();
-    b.push(0);
-    b
-}
 
-/// standard peer: echoes the request's token; `more` requests get 2 continues + final; oneway nothing
-fn std_script() -> Arc<dyn Fn(&Value) -> Vec<u8> + Send + Sync> {
-    Arc::new(|req: &Value| {
-        if req["oneway"] == json!(true) {
-            return vec![];
-        }
-        let tok = req["parameters"]["tok"].clone();
-        if req["more"] == json!(true) {
-            let mut b = frame(&json!({"continues": true, "parameters": {"tok": tok, "i": 0}}));
-            b.extend(frame(&json!({"continues": true, "parameters": {"tok": tok, "i": 1}})));
-            b.extend(frame(&json!({"parameters": {"tok": tok, "i": 2}})));
-            b
-        } else {
-            frame(&json!({"parameters": {"tok": tok}}))
-        }
-    })
-}
 
-fn kind_name(e: &varlink::Error) -> String {
-    match e.kind() {
-        ErrorKind::ConnectionBusy => "ConnectionBusy".into(),
-        ErrorKind::MethodCalledAlready => "MethodCalledAlready".into(),
-        ErrorKind::IteratorOldReply => "IteratorOldReply".into(),
-        ErrorKind::ConnectionClosed => "ConnectionClosed".into(),
-        k => format!("{:?}", k),
-    }
-}
 
 // ------------------------------------------------------------------ C07 (a) outcome mapping
 
@@ -782,322 +751,18 @@ fn c05(args: &Args) -> ! {
     rep.finish(args)
 }
 
-// ------------------------------------------------------------------ C07 threads (vsched)
-
-#[derive(Debug, Clone, Copy, PartialEq)]
-enum TOp {
-    Call,
-    More,
-    Oneway,
-}
-
-#[derive(Default)]
-struct TObs {
-    /// per thread, per op: result description
-    results: Vec<Vec<String>>,
-    fresh: Option<String>,
-}
-
-struct WorldT {
-    conn: Arc<RwLock<Connection>>,
-    obs: Arc<Mutex<TObs>>,
-    plan: Vec<Vec<TOp>>,
-    answered: usize,
-}
-
-fn requests_on_wire(st: &St) -> Vec<Value> {
-    let bytes: Vec<u8> = st.pipes[0].to_server.iter().copied().collect();
-    bytes.split(|b| *b == 0).filter(|m| !m.is_empty()).map(|m| serde_json::from_slice(m).unwrap_or(json!({"garbled": b2s(m)}))).collect()
-}
-
-fn complete_requests(st: &St) -> usize {
-    st.pipes[0].to_server.iter().filter(|b| **b == 0).count()
-}
-
-impl World for WorldT {
-    fn thread_enabled(&self, _st: &St, _tid: usize, op: &Op) -> bool {
-        match op {
-            Op::Probe(varlink::verif::Point::ClientWantLock) => self.conn.try_write().is_ok(),
-            _ => true,
-        }
-    }
-    fn env_enabled(&self, st: &St) -> Vec<EnvAct> {
-        if self.answered < complete_requests(st) {
-            vec![EnvAct { label: format!("answer{}", self.answered), id: self.answered }]
-        } else {
-            vec![]
-        }
-    }
-    fn do_env(&mut self, st: &mut St, _act: &EnvAct) -> Option<usize> {
-        let reqs = requests_on_wire(st);
-        let req = &reqs[self.answered];
-        self.answered += 1;
-        let f = std_script();
-        let r = f(req);
-        st.pipes[0].to_client.extend(r);
-        None
-    }
-    fn check(&mut self, st: &St, _q: bool) -> Option<(String, String)> {
-        if let Some((t, m)) = st.panics.first() {
-            return Some(("C07/threads/panic".into(), format!("thread {} panicked: {}", st.threads[*t].name, m)));
-        }
-        None
-    }
-    fn on_watchdog(&self, desc: &str) -> Option<(String, String)> {
-        Some(("C07/threads/blocked".into(), format!("a client thread blocked instead of failing immediately: {}", desc)))
-    }
-    fn final_check(&mut self, st: &St, horizon: bool) -> Option<(String, String)> {
-        if horizon {
-            return Some(("C07/threads/horizon".into(), "execution did not end".into()));
-        }
-        let o = self.obs.lock().unwrap();
-        // every thread finished all its ops
-        for (t, ops) in self.plan.iter().enumerate() {
-            if o.results[t].len() != ops.len() {
-                let desc: Vec<String> = st.threads.iter().map(|t| format!("{}:{:?}", t.name, t.pending.as_ref().map(|o| o.label()))).collect();
-                return Some(("C07/threads/stuck".into(), format!("thread {} finished {} of {} ops; nothing enabled; threads {:?}", t, o.results[t].len(), ops.len(), desc)));
-            }
-        }
-        let mut sent: Vec<String> = vec![];
-        for (t, ops) in self.plan.iter().enumerate() {
-            for (k, op) in ops.iter().enumerate() {
-                let tok = format!("T{}.{}", t, k);
-                let r = &o.results[t][k];
-                let want_ok = match op {
-                    TOp::Call => format!("ok:{}", tok),
-                    TOp::Oneway => "ok:sent".to_string(),
-                    TOp::More => format!("ok:{}:0,{}:1,{}:2", tok, tok, tok),
-                };
-                if *r == want_ok {
-                    sent.push(tok);
-                } else if r != "ConnectionBusy" {
-                    return Some((
-                        if r.starts_with("ok:") { "C07/threads/foreign-reply".to_string() } else { "C07/threads/unexpected-error".to_string() },
-                        format!("thread {} op {} {:?} returned {:?}; allowed: {:?} or ConnectionBusy; all results {:?}", t, k, op, r, want_ok, o.results),
-                    ));
-                }
-            }
-        }
-        // the peer received exactly the non-busy ops, each request intact
-        let reqs = requests_on_wire(st);
-        let mut got: Vec<String> = reqs.iter().map(|r| r["parameters"]["tok"].as_str().unwrap_or("<garbled>").to_string()).collect();
-        let fresh_ok = o.fresh.as_deref() == Some("ok:fresh");
-        if !fresh_ok {
-            return Some(("C07/threads/not-usable-again".into(), format!("after all threads finished a fresh call returned {:?}; results {:?}", o.fresh, o.results)));
-        }
-        sent.push("fresh".into());
-        sent.sort();
-        got.sort();
-        if sent != got {
-            return Some(("C07/threads/wire".into(), format!("peer received {:?} but the non-busy ops are {:?}; results {:?}", got, sent, o.results)));
-        }
-        None
-    }
-    fn abstract_state(&self, st: &St) -> String {
-        let th: Vec<String> = st.threads.iter().map(|t| format!("{}{}", t.pending.as_ref().map(|o| o.label()).unwrap_or_default(), t.exited)).collect();
-        format!("{:?}{}{}", th, self.answered, st.pipes[0].to_client.len())
-    }
-    fn outcome(&self, _st: &St) -> String {
-        format!("{:?}", self.obs.lock().unwrap().results)
-    }
-}
-
-fn build_t(plan: Vec<Vec<TOp>>) -> impl Fn(&Sched) -> Scenario {
-    move |s: &Sched| {
-        let id = s.new_pipe();
-        let mut c = Connection::default();
-        c.reader = Some(BufReader::new(Box::new(ClientReader { id, sched: s.clone() }) as Box<dyn Read + Send + Sync>));
-        c.writer = Some(Box::new(ClientWriter { id, sched: s.clone() }) as Box<dyn Write + Send + Sync>);
-        let conn = Arc::new(RwLock::new(c));
-        let obs = Arc::new(Mutex::new(TObs { results: vec![vec![]; plan.len()], fresh: None }));
-        let n = plan.len();
-        let done = Arc::new(Mutex::new(0usize));
-        let mut roots = vec![];
-        for (t, ops) in plan.iter().enumerate() {
-            let conn = conn.clone();
-            let obs = obs.clone();
-            let ops = ops.clone();
-            let done = done.clone();
-            roots.push(s.spawn(&format!("c{}", t), true, move || {
-                for (k, op) in ops.iter().enumerate() {
-                    let tok = format!("T{}.{}", t, k);
-                    let r = std::panic::catch_unwind(std::panic::AssertUnwindSafe(|| {
-                        let mut mc = MC::new(conn.clone(), "a.b.C", json!({"tok": tok}));
-                        match op {
-                            TOp::Call => mc.call().map(|v| format!("ok:{}", v["tok"].as_str().unwrap_or("?"))).unwrap_or_else(|e| kind_name(&e)),
-                            TOp::Oneway => mc.oneway().map(|_| "ok:sent".to_string()).unwrap_or_else(|e| kind_name(&e)),
-                            TOp::More => match mc.more() {
-                                Err(e) => kind_name(&e),
-                                Ok(it) => {
-                                    // stop at the first error: an iterator over a dead connection never ends by itself
-                                    let mut items: Vec<String> = vec![];
-                                    for r in it.take(16) {
-                                        match r {
-                                            Ok(v) => items.push(format!("{}:{}", v["tok"].as_str().unwrap_or("?"), v["i"])),
-                                            Err(e) => {
-                                                items.push(kind_name(&e));
-                                                break;
-                                            }
-                                        }
-                                    }
-                                    format!("ok:{}", items.join(","))
-                                }
-                            },
-                        }
-                    }));
-                    let r = r.unwrap_or_else(|p| format!("panic:{}", panic_msg(&p)));
-                    obs.lock().unwrap().results[t].push(r);
-                }
-                let last = {
-                    let mut d = done.lock().unwrap();
-                    *d += 1;
-                    *d == n
-                };
-                if last {
-                    // every thread is done: the connection must be usable again
-                    let r = std::panic::catch_unwind(std::panic::AssertUnwindSafe(|| {
-                        MC::new(conn.clone(), "a.b.C", json!({"tok": "fresh"})).call().map(|v| format!("ok:{}", v["tok"].as_str().unwrap_or("?"))).unwrap_or_else(|e| kind_name(&e))
-                    }));
-                    obs.lock().unwrap().fresh = Some(r.unwrap_or_else(|p| format!("panic:{}", panic_msg(&p))));
-                }
-            }));
-        }
-        Scenario { world: Box::new(WorldT { conn, obs, plan: plan.clone(), answered: 0 }), roots }
-    }
-}
-
-fn c07t_plans(thorough: bool) -> Vec<Vec<Vec<TOp>>> {
-    let ops = [TOp::Call, TOp::More, TOp::Oneway];
-    let mut v: Vec<Vec<Vec<TOp>>> = vec![];
-    // 2 threads x 1 op (all ordered pairs up to symmetry)
-    for a in 0..3 {
-        for b in a..3 {
-            v.push(vec![vec![ops[a]], vec![ops[b]]]);
-        }
-    }
-    // 3 threads x 1 op
-    for a in 0..3 {
-        for b in a..3 {
-            for c in b..3 {
-                v.push(vec![vec![ops[a]], vec![ops[b]], vec![ops[c]]]);
-            }
-        }
-    }
-    // 2 threads x 2 ops
-    let two: Vec<Vec<TOp>> = ops.iter().flat_map(|a| ops.iter().map(move |b| vec![*a, *b])).collect();
-    for (i, a) in two.iter().enumerate() {
-        for (j, b) in two.iter().enumerate() {
-            if j < i {
-                continue;
-            }
-            if !thorough && (i + j) % 4 != 0 {
-                continue;
-            }
-            v.push(vec![a.clone(), b.clone()]);
-        }
-    }
-    if thorough {
-        // 4 threads x 1 op, 3 threads x 2 ops (subset)
-        for a in 0..3 {
-            for b in a..3 {
-                v.push(vec![vec![ops[a]], vec![ops[b]], vec![TOp::Call], vec![TOp::More]]);
-            }
-        }
-        for (i, a) in two.iter().enumerate() {
-            if i % 3 == 0 {
-                v.push(vec![a.clone(), vec![TOp::Call, TOp::More], vec![TOp::Oneway, TOp::Call]]);
-            }
-        }
-    }
-    v
-}
-
 fn fail_exit(f: Fail) -> ! {
     eprintln!("MACHINERY: {:?}", f);
     std::process::exit(2)
 }
 
-fn c07t(args: &Args) -> ! {
-    let mut rep = Report::new("C07", "threads sharing one connection under the controlled scheduler (threads park before every connection-lock acquisition and every read; the peer answers each request, tagged with the request's token, at a moment the scheduler chooses): 2 threads x 1-2 ops, 3 threads x 1 op (thorough: + 4x1, 3x2) over {call, more drained, oneway}; full DFS for the 1-op plans, deviation bound 3 otherwise; oracle per interleaving: every op returns its own token's reply/items or ConnectionBusy, the peer received exactly the non-busy requests intact, a fresh call succeeds afterwards; non-trivial = distinct complete executions");
-    install_hooks();
-    let plans = c07t_plans(true);
-    if let Some(case) = args.replay_case() {
-        let pi = case["plan"].as_u64().unwrap() as usize;
-        let choices: Vec<usize> = case["choices"].as_array().unwrap().iter().map(|c| c.as_u64().unwrap() as usize).collect();
-        let b = build_t(plans[pi].clone());
-        let x = run_one(&b, &choices, 3000, true).unwrap_or_else(|f| fail_exit(f));
-        let y = run_one(&b, &choices, 3000, true).unwrap_or_else(|f| fail_exit(f));
-        if x.fingerprint() != y.fingerprint() {
-            fail_exit(Fail::Divergence("replay is not deterministic".into()));
-        }
-        rep.eval(Some("replay"));
-        rep.sample(json!({"case": case, "trace": x.trace, "outcome": x.outcome}));
-        if let Some((sig, what)) = x.violation {
-            rep.violation(&sig, &format!("{} ; schedule: {}", what, x.trace.join(" > ")), case);
-        }
-        rep.finish(args);
-    }
-    let use_plans = c07t_plans(args.thorough());
-    let t0 = Instant::now();
-    let budget = Duration::from_secs(if args.thorough() { 1200 } else { 40 });
-    let mine: Vec<(usize, &Vec<Vec<TOp>>)> = plans.iter().enumerate().filter(|(_, p)| use_plans.contains(p)).filter(|(i, _)| i % args.nshards == args.shard).collect();
-    let nm = mine.len().max(1);
-    for (k, (pi, plan)) in mine.into_iter().enumerate() {
-        let b = build_t(plan.clone());
-        let small = plan.iter().all(|p| p.len() == 1) && plan.len() <= 2;
-        let cfg = ExploreCfg {
-            bound: if small { 64 } else if args.thorough() { 3 } else { 2 },
-            stateful: false,
-            horizon: 3000,
-            max_execs: if args.thorough() { 30_000 } else { 3_000 },
-            shard: 0,
-            nshards: 1,
-            deadline: Some(t0 + budget.mul_f64((k + 1) as f64 / nm as f64)),
-            env_order_free: false,
-        };
-        let mut found: Vec<(String, String, Vec<usize>)> = vec![];
-        {
-            let repref = &mut rep;
-            let mut on_exec = |x: &Exec, _p: &[usize]| {
-                let choices = x.choices();
-                repref.eval(Some(&format!("{}:{:?}", pi, choices)));
-                repref.outcome(&format!("{}:{}", pi, x.outcome));
-                if repref.want_sample() {
-                    repref.sample(json!({"plan": pi, "ops": format!("{:?}", plan), "choices": choices, "outcome": x.outcome}));
-                }
-                if let Some((sig, what)) = &x.violation {
-                    found.push((sig.clone(), what.clone(), choices));
-                }
-            };
-            let stats = explore(&b, &cfg, &mut on_exec).unwrap_or_else(|f| fail_exit(f));
-            for h in &stats.states {
-                rep.state_hashes.insert(*h ^ (pi as u64).wrapping_mul(0x9E3779B97F4A7C15));
-            }
-            rep.count("transitions", stats.transitions);
-            rep.count("executions", stats.executions);
-            rep.count("plans", 1);
-            if stats.capped {
-                rep.exhaustive = false;
-                rep.notes.push(format!("plan {} {:?}: capped after {} executions", pi, plan, stats.executions));
-            }
-        }
-        found.sort_by_key(|f| (f.0.clone(), f.2.iter().filter(|c| **c != 0).count(), f.2.len()));
-        let mut seen = std::collections::HashSet::new();
-        for (sig, what, choices) in found {
-            let case = json!({"plan": pi, "ops": format!("{:?}", plan), "choices": choices});
-            if seen.insert(sig.clone()) {
-                let x = run_one(&b, &choices, 3000, true).unwrap_or_else(|f| fail_exit(f));
-                match &x.violation {
-                    Some((s2, _)) if *s2 == sig => rep.violation(&sig, &format!("{} ; schedule: {}", what, x.trace.join(" > ")), case),
-                    other => fail_exit(Fail::Divergence(format!("violation {} did not reproduce on replay: {:?}", sig, other))),
-                }
-            } else {
-                rep.violation(&sig, &what, case);
-            }
-        }
-    }
-    rep.finish(args)
+type ConnLock<T> = RwLock<T>;
+
+fn granularity7() -> &'static str {
+    ""
 }
+
+include!("../c07t.inc");
 
 fn main() {
     let args = Args::parse();
